@@ -250,8 +250,8 @@ theorem coerceCore_congr {reg : Reg} {rec rec' : Ty → JV → R} (hrr : ∀ t v
       | null => simp [JV.isNull] at hnull
       | bool b => simp only at h ⊢; rw [hrr _ _ (by intro hc; simp [hc, NoFuel] at h)]
       | int n => simp only at h ⊢; rw [hrr _ _ (by intro hc; simp [hc, NoFuel] at h)]
-      | float a b c => simp only at h ⊢; rw [hrr _ _ (by intro hc; simp [hc, NoFuel] at h)]
-      | str a b c => simp only at h ⊢; rw [hrr _ _ (by intro hc; simp [hc, NoFuel] at h)]
+      | float a => simp only at h ⊢; rw [hrr _ _ (by intro hc; simp [hc, NoFuel] at h)]
+      | str a => simp only at h ⊢; rw [hrr _ _ (by intro hc; simp [hc, NoFuel] at h)]
       | obj kvs => simp only at h ⊢; rw [hrr _ _ (by intro hc; simp [hc, NoFuel] at h)]
     | named n =>
       simp only at h ⊢
@@ -312,7 +312,7 @@ theorem vfaCore_congr {reg : Reg} {rec rec' : Ty → Lit → R} (hrr : ∀ t l, 
         rw [mapE_congr (hrr t') items this]
       | null => simp [Lit.isNull] at hnull
       | int n => simp only at h ⊢; rw [hrr _ _ (by intro hc; simp [hc, NoFuel] at h)]
-      | float a b => simp only at h ⊢; rw [hrr _ _ (by intro hc; simp [hc, NoFuel] at h)]
+      | float a => simp only at h ⊢; rw [hrr _ _ (by intro hc; simp [hc, NoFuel] at h)]
       | str a => simp only at h ⊢; rw [hrr _ _ (by intro hc; simp [hc, NoFuel] at h)]
       | bool a => simp only at h ⊢; rw [hrr _ _ (by intro hc; simp [hc, NoFuel] at h)]
       | enum a => simp only at h ⊢; rw [hrr _ _ (by intro hc; simp [hc, NoFuel] at h)]
